@@ -538,6 +538,30 @@ pub fn craft_pk(rng: &mut Prng, p: Params, valid: &[u8]) -> CraftedKey {
 pub fn craft_sk(rng: &mut Prng, p: Params, valid: &[u8]) -> CraftedKey {
     let mut b = valid.to_vec();
     let w = p.fg_bits;
+    if rng.chance(1, 6) {
+        // another basis of the same lattice: F' = F + k x^j f (and, implicitly, G' = G + k x^j g) still
+        // satisfies f G' - g F' = q and fits the fields; it is a different, perfectly valid secret key,
+        // and a decoder has to hand back exactly what the bytes say (no "normalisation")
+        if let Ok(k) = crate::reference::codec::sk_decode(p, valid) {
+            for _ in 0..8 {
+                let j = rng.usize_below(p.n);
+                let sgn: i64 = if rng.chance(1, 2) { 1 } else { -1 };
+                let mut cf = k.cf.clone();
+                for i in 0..p.n {
+                    // (x^j f)_{i+j} = f_i, negated on wrap-around
+                    let t = i + j;
+                    let (pos, neg) = if t >= p.n { (t - p.n, true) } else { (t, false) };
+                    cf[pos] += if neg { -sgn * k.f[i] } else { sgn * k.f[i] };
+                }
+                if cf.iter().all(|c| c.abs() <= 127) {
+                    let k2 = crate::reference::codec::SkFields { f: k.f.clone(), g: k.g.clone(), cf };
+                    if let Some(bytes) = crate::reference::codec::sk_encode(p, &k2) {
+                        return CraftedKey { bytes, style: "Z3-sk-other-basis", detail: format!("F + ({}) x^{} f", sgn, j) };
+                    }
+                }
+            }
+        }
+    }
     match rng.below(4) {
         0 | 1 => {
             // reserved pattern 100..0 in a random field of f, g or F
